@@ -181,6 +181,8 @@ class Controller:
             finished = 0
             n = len(chunk)
             while finished < n:
+                if getattr(self, 'pause', 0) and finished == n - 1 and n > 1:
+                    time.sleep(self.pause)        # one element of the chunk takes long (wall clock), the others finished long before
                 expected = min(self.threads, n - finished)
                 with self.cond:
                     ok = self.cond.wait_for(lambda: len(self.inflight) >= expected or self.main_done, WATCHDOG)
@@ -280,6 +282,7 @@ def run_once(cfg, prefix):
         import pandas as pd
         inp = {'np': lambda: np.array(xs, dtype='int64'), 'series': lambda: pd.Series(xs, dtype='int64'), 'index': lambda: pd.Index(xs),
                'dict': lambda: dict.fromkeys(xs), 'range': lambda: range(xs[0], xs[0] + len(xs)) if xs else range(0)}[cfg['input']]()
+    ctl.pause = cfg.get('pause', 0)
     fun = ctl.f
     how = cfg.get('callable', 'method')
     if how == 'partial':
@@ -349,6 +352,8 @@ def judge(cfg, ob, res: CaseResult):
     res.count('input_kind_' + cfg.get('input', 'list'))
     if cfg.get('none_at') is not None:
         res.count('inputs_with_a_none_element')
+    if cfg.get('pause'):
+        res.count('runs_with_a_slow_element')
     if cfg.get('callable', 'method') != 'method':
         res.count('runs_with_callables_without_a_name')
     if cfg.get('total'):
@@ -572,6 +577,15 @@ def cases(tier, seed):
                             'callable': rng.choice(['method', 'partial', 'instance'])})
     for i in range(0, len(odd), 12):
         yield {'kind': 'runs', 'cfgs': odd[i:i + 12]}
+    # 3d. one slow element per chunk (most of a second of wall clock) while the rest of the chunk finished at once
+    slow = []
+    for impl in ('threading', 'iter'):
+        for sort in (True, False):
+            slow.append({'impl': impl, 'n': 5, 'threads': 5, 'chunk': 5 if impl == 'threading' else 1000, 'sort': sort, 'policy': 'random', 'pseed': 3, 'input': 'list',
+                         'tqdm': impl == 'threading' and sort, 'pause': 0.8})
+    slow.append({'impl': 'threading', 'n': 4, 'threads': 3, 'chunk': 2, 'sort': True, 'policy': 'reverse', 'pseed': 1, 'input': 'gen', 'tqdm': False, 'pause': 0.7, 'raise': [0], 'raise_type': 'key'})
+    for cfg_ in slow:
+        yield {'kind': 'runs', 'cfgs': [cfg_]}
     # 3. random / adversarial orders on larger inputs
     total = 150 if tier == 'quick' else 6000
     batch = []
